@@ -40,21 +40,21 @@ SK_UPDATE = both(sk.rule_sk_copy, sk.rule_sk_upd, sk.rule_sk_nu, sk.rule_sk_pare
 SK_ALL = SK_LOOP + SK_SELECT + SK_UPDATE + both(sk.rule_sk_stop, sk.rule_sk_err, sk.rule_sk_alias) + py(sk.rule_sk_scope)
 WR_ALL = both(wr.rule_wr_ret, wr.rule_wr_prop, wr.rule_wr_fin, wr.rule_wr_top, wr.rule_wr_uniq, wr.rule_wr_ucnt, wr.rule_wr_sort, wr.rule_wr_aggw)
 CONF_ALL = both(conf.rule_pa_conf, conf.rule_wr_order, conf.rule_pa_excl, conf.rule_pa_hdrcall, conf.rule_hd_arity, conf.rule_pa_with, conf.rule_rs_proto)
-AG_ALL = both(ag.rule_ag_route, ag.rule_ag_init, ag.rule_ag_stage, ag.rule_ag_const, ag.rule_ag_sib, ag.rule_ag_starcount, ag.rule_ag_keyord, agfold.rule_ag_fold, agfold.rule_ag_median) + one(ag.rule_ag_mad)
+AG_ALL = both(ag.rule_ag_route, ag.rule_ag_init, ag.rule_ag_stage, ag.rule_ag_const, ag.rule_ag_sib, ag.rule_ag_starcount, ag.rule_ag_keyord, agfold.rule_ag_fold, agfold.rule_ag_median) + one(ag.rule_ag_mad, agfold.rule_ag_parse)
 JN_ALL = both(ag.rule_jn_dispatch, ag.rule_jn_joiners, ag.rule_jn_build, ag.rule_pa_join)
 HD_ALL = both(hd.rule_hd_table, hd.rule_hd_startwin, hd.rule_hd_except, hd.rule_hd_update, hd.rule_hd_emit, conf.rule_hd_countpos) + one(hd.rule_hd_shapes)
 VA_ALL = both(hd.rule_va_index, hd.rule_va_enum, hd.rule_va_esc) + one(hd.rule_va_record)
 PA_ALL = both(pa.rule_pa_case, pa.rule_pa_withcase, pa.rule_pa_groups, pa.rule_pa_litorder, pa.rule_pa_cleanorder, pa.rule_pa_lit, pa.rule_pa_litflow, pa.rule_pa_subst, pa.rule_pa_litcheck, pa.rule_pa_top, pa.rule_pa_zero, pa.rule_pa_asc, pa.rule_pa_redund)
 CS_ALL = both(cs.rule_rx_field, cs.rule_rx_newline, cs.rule_rx_ws, cs.rule_cs_trigger, cs.rule_cs_accept, cs.rule_cs_width, cs.rule_cs_extws, cs.rule_cs_dispatch, cs.rule_cs_writer)
 XP_ALL = one(xp.rule_rx_xp, xp.rule_xp_keywords, xp.rule_xp_roles, xp.rule_xp_messages, xp.rule_xp_verdicts)
-OW_ALL = both(ow.rule_ow_mut, ow.rule_ow_fresh, ow.rule_ow_selwrap, ow.rule_ow_open, ow.rule_ow_fs) + one(ow.rule_ow_sql, ow.rule_ow_pandas)
+OW_ALL = both(ow.rule_ow_mut, ow.rule_ow_fresh, ow.rule_ow_selwrap, ow.rule_ow_open, ow.rule_ow_fs) + one(ow.rule_ow_sql, ow.rule_ow_conn, ow.rule_ow_pandas)
 RD_PY = one(rd.rule_rd_mustflow, rd.rule_rd_partition, rd.rule_rd_crla) + py(rd.rule_rd_decode, rd.rule_rd_eof, rd.rule_rd_bom, rd.rule_rd_comment, rd.rule_rd_rfc, rd.rule_rd_hdrflag, rd.rule_rd_replay, cs.rule_rx_newline)
 RD_JS = one(rd.rule_rd_jschunk) + js(rd.rule_rd_decode, rd.rule_rd_eof, rd.rule_rd_bom, rd.rule_rd_comment, rd.rule_rd_rfc, rd.rule_rd_hdrflag, rd.rule_rd_replay, cs.rule_rx_newline)
 GS_ALL = one(gs.rule_gs_modstate, gs.rule_gs_classattr, gs.rule_gs_defaults, gs.rule_gs_ctxescape, gs.rule_gs_exec)
 LK_ALL = both(lk.rule_lk_taint, lk.rule_lk_map, lk.rule_lk_anchor, lk.rule_lk_part, lk.rule_lk_cache) + one(lk.rule_rx_jsesc)
 RS_ALL = one(rs.rule_rs_close, rs.rule_rs_epipe, rs.rule_rs_decerr)
 FL_ALL = both(rs.rule_fl_flags, rs.rule_fl_fields, rs.rule_fl_none_complete)
-IF_ALL = one(ifc.rule_if_layer, ifc.rule_if_conf, ifc.rule_if_entry, ifc.rule_if_args, ifc.rule_if_df, ifc.rule_cl_stdout, ifc.rule_cl_exit, ifc.rule_cl_mode, ifc.rule_cl_presence) + both(ifc.rule_if_regfresh, hd.rule_hd_emit)
+IF_ALL = one(ifc.rule_if_layer, ifc.rule_if_conf, ifc.rule_if_entry, ifc.rule_if_args, ifc.rule_if_joinopts, ifc.rule_if_df, ifc.rule_cl_stdout, ifc.rule_cl_exit, ifc.rule_cl_mode, ifc.rule_cl_presence) + both(ifc.rule_if_regfresh, hd.rule_hd_emit)
 
 
 def only(rules, port):
@@ -118,7 +118,7 @@ PROPS = {
         'not_decided': 'the exact language of Python/JS string literals accepted by the literal regex.',
     },
     'C09': {
-        'rules': VA_ALL + both(rd.rule_rd_hdrflag, rd.rule_rd_replay, conf.rule_pa_with, sk.rule_sk_nr, pa.rule_pa_withcase, pa.rule_pa_subst),
+        'rules': VA_ALL + both(rd.rule_rd_hdrflag, rd.rule_rd_replay, conf.rule_pa_with, sk.rule_sk_nr, pa.rule_pa_withcase, pa.rule_pa_subst) + one(ifc.rule_if_joinopts),
         'thorough_rules': both(sk.rule_sk_eof, sk.rule_sk_vars) + one(xp.rule_rx_xp),
         'explanation': 'Decides variable binding structure: name -> index maps are built from header positions, a.name / a["name"] / direct names store that position, the escape function doubles backslashes first and covers quote/LF/CR with the same quote character as the generated key text, the candidate filter only searches for segments the escape leaves unchanged; header line replay flag is always the negation of has_header, WITH (header/noheader) reaches both iterators before their variable maps are built; NR is counted by the engine loop. Column names are substituted into generated text only through literal (non template-interpreting) operations.',
         'not_decided': 'completeness of the candidate filter for spellings of a name other than the canonical escaped one.',
@@ -148,7 +148,7 @@ PROPS = {
         'not_decided': 'equality of results across back-ends (depends on pandas/sqlite value conversion).',
     },
     'C14': {
-        'rules': both(sk.rule_sk_err, sk.rule_sk_nr, conf.rule_pa_hdrcall, conf.rule_pa_excl, hd.rule_va_index, rd.rule_rd_bom, agfold.rule_ag_fold) + FL_ALL + one(rs.rule_rs_decerr, ifc.rule_cl_exit),
+        'rules': both(sk.rule_sk_err, sk.rule_sk_nr, conf.rule_pa_hdrcall, conf.rule_pa_excl, hd.rule_va_index, rd.rule_rd_bom, agfold.rule_ag_fold) + one(agfold.rule_ag_parse) + FL_ALL + one(rs.rule_rs_decerr, ifc.rule_cl_exit),
         'thorough_rules': both(sk.rule_sk_eof, rd.rule_rd_bom, cs.rule_cs_accept, ag.rule_ag_const),
         'explanation': 'Decides error/warning structure: one try covers every user fragment in every generated program; handlers never fall through (first offending record ends the query); bad field -> runtime error with index+1 and NR, bad key with the key and NR, parsing errors re-raised unchanged, anything else -> runtime error with NR; text-detectable conflicts raise the parsing class before the header is handed over and nothing can raise after it; decode faults map to the IO class; each warning flag has one neutral initialisation, set-sites only under its condition and one guarding read in get_warnings; field-count warning records the first record per count and cites the two smallest.',
         'not_decided': '"iff the condition occurred" for conditions defined over string contents (e.g. exactness of the delimiter-count heuristic).',
